@@ -265,6 +265,44 @@ pub fn run(cat: &Catalog, cfg: &Config, stats: &mut Stats, run_seed: u64) -> Vec
         }
     }
 
+    // C12: the container matrix - what one container wrote, read as every other one of its group
+    if focus == "C12" {
+        for _ in 0..4 {
+            let group = sw.pick(&cat.matrix);
+            let s_e = &cat.entries[*sw.pick(group)];
+            let d_e = &cat.entries[*sw.pick(group)];
+            let val = gen.val(&s_e.ty, &mut wl);
+            let peer = sw.chance(1, 3);
+            let bytes = if peer {
+                Some(ref_encode(&cat.reg, &s_e.ty, &val, Forms::mixed(wl.derive("forms"))))
+            } else {
+                match contain(u64::MAX, || (s_e.encode)(&val)).0 {
+                    Outcome::Ok(b) => Some(b),
+                    _ => None,
+                }
+            };
+            let Some(mut bytes) = bytes else { continue };
+            let exp = evo.convert(&s_e.ty, &d_e.ty, &val);
+            let sib = gen.val(&Ty::Str, &mut wl);
+            let enc_len = if let Outcome::Ok(sb) = contain(u64::MAX, || (cat.by_name("String").unwrap().encode)(&sib)).0 {
+                bytes.extend_from_slice(&sb);
+                bytes.len()
+            } else {
+                bytes.len()
+            };
+            run.stats.count("probe.container_matrix_case");
+            let mut c = Case::new("C12", "script", d_e.name, bytes);
+            c.enc_len = enc_len;
+            c.batch = vec![(d_e.name.to_string(), expectation(&exp))];
+            if exp.is_ok() {
+                c.batch.push(("String".to_string(), format!("ok:{sib:?}")));
+            }
+            c.fault = format!("{} written{} -> read as {}", s_e.name, if peer { " by the reference peer" } else { "" }, d_e.name);
+            c.fault_kind = if peer { "P-peer".into() } else { "P-cont".into() };
+            run.submit(c);
+        }
+    }
+
     // ---- events --------------------------------------------------------------------------------
     for _ in 0..nevents {
         run.stats.events += 1;
